@@ -88,6 +88,7 @@ type c04Hook struct {
 	Queue     int // 0 = main, 1 = q1, …
 	Bindings  []c04Binding
 	KBindings []c04KBinding
+	V0        bool // v0 configuration (JSON): onStartup + schedule only, main queue, no groups; no combining
 }
 
 func c04QueueName(n int) string {
@@ -115,6 +116,21 @@ func c04GroupNum(s string) int {
 func (h c04Hook) script(dir, ns string) string {
 	var b strings.Builder
 	b.WriteString("#!/usr/bin/env bash\n")
+	if h.V0 {
+		b.WriteString("if [[ \"$1\" == \"--config\" ]]; then\ncat <<'EOF'\n{")
+		if h.OnStartup > 0 {
+			fmt.Fprintf(&b, "\"onStartup\": %d, ", h.OnStartup)
+		}
+		b.WriteString("\"schedule\": [")
+		for i, bd := range h.Bindings {
+			if i > 0 {
+				b.WriteString(", ")
+			}
+			fmt.Fprintf(&b, "{\"name\": %q, \"crontab\": %q, \"allowFailure\": %v}", bd.Name, bd.Crontab, bd.AF)
+		}
+		b.WriteString("]}\nEOF\nexit 0\nfi\n")
+		return b.String() + h.body(dir)
+	}
 	b.WriteString("if [[ \"$1\" == \"--config\" ]]; then\ncat <<'EOF'\nconfigVersion: v1\n")
 	if h.OnStartup > 0 {
 		fmt.Fprintf(&b, "onStartup: %d\n", h.OnStartup)
@@ -145,6 +161,12 @@ func (h c04Hook) script(dir, ns string) string {
 		}
 	}
 	b.WriteString("EOF\nexit 0\nfi\n")
+	return b.String() + h.body(dir)
+}
+
+// body is the part of the script that runs for a binding context.
+func (h c04Hook) body(dir string) string {
+	var b strings.Builder
 	fmt.Fprintf(&b, "D=%q\nH=%q\n", dir, h.Name)
 	b.WriteString(`n=$(cat "$D/count.$H" 2>/dev/null || echo 0); n=$((n+1)); echo $n > "$D/count.$H"
 ctx=$(jq -c '[.[] | [.binding, (.type // "-"), (.groupName // "-")]]' "$BINDING_CONTEXT_PATH")
@@ -788,6 +810,12 @@ func c04Execute(c *Case, r *Run, p c04Plan) {
 		bi = queue.DefaultInitialDelayOnFailedTask
 	}
 	c.Op(fmt.Sprintf("backoff init=%d step=%d", bi.Nanoseconds(), p.boStep.Nanoseconds()), "ok")
+	for _, h := range p.hooks {
+		if h.V0 {
+			c.Op(fmt.Sprintf("hookver hook=%d v=0", h.Num), "ok")
+			c.Note("hook:v0-config")
+		}
+	}
 	fails := map[int]int{}
 	finish := func(qn int) string {
 		run := w.running[qn]
@@ -874,7 +902,15 @@ func c04GenHooks(rng *Rng, nh int, kube bool) []c04Hook {
 			}
 			h.Bindings = append(h.Bindings, bd)
 		}
-		if kube && rng.Chance(60) {
+		if rng.Chance(15) {
+			// a v0 hook: main queue, no groups, no kubernetes bindings (an Event for a v0 hook panics in MapV0)
+			h.V0 = true
+			h.Queue = 0
+			for j := range h.Bindings {
+				h.Bindings[j].Group = 0
+			}
+		}
+		if kube && !h.V0 && rng.Chance(60) {
 			for j := rng.Range(1, 3); j > 0; j-- {
 				bnum++
 				kb := c04KBinding{Name: fmt.Sprintf("k%d", bnum), AF: rng.Chance(40), EOS: !rng.Chance(15)}
